@@ -18,10 +18,32 @@ def run(ctx):
                 "direct-domains x proxy-localhost mode x 11 connect-to rule classes x target x request kind with the "
                 "expected hop and dial address; replayed through a real HTTPProxy + NewHTTPTransport/Dialer with four "
                 "scripted proxies, redirect targets and origins; exactly the predicted peer must be contacted, failing "
-                "cases must contact nobody. Non-trivial = anything but a plain direct forward.")
+                "cases must contact nobody. PacRoute.tla: decision tables over (host, path class) as PAC scripts that inspect the URL, "
+                "histories of 3 requests (plain, CONNECT, inside MITM) on ONE instance in which a host is asked for twice with "
+                "different answers; every request must leave through the hop named for its own URL (mutant: decision cached "
+                "per host). Non-trivial = anything but a plain direct forward.")
     ctx.mc("Pipeline.tla", "MC_Pipeline.cfg")
     binp = ctx.build()
     pipecommon.run_gen(ctx, binp, "Route", "Q" if q else "T", key, "route_case")
+    # PAC decisions that depend on the URL, over a history of requests on one instance
+    ctx.mc("PacRoute.tla", "MC_PacRoute.cfg")
+    ok, _, _, _ = ctx.mc("PacRoute.tla", "MC_PacRoute_cache.cfg", expect_ok=False)
+    if ok:
+        raise vlib.Infra("PacRoute mutant CachePerHost not detected by the model")
+    recs, g, d, _ = ctx.gen("PacRoute.tla", "GEN_PacRoute_%s.cfg" % ("Q" if q else "T"))
+    if not recs:
+        raise vlib.Infra("PacRoute generated no discriminating history")
+    out = ctx.run_vh(binp, ["pipe-pacseq"], cases=recs, timeout=3000)
+    out, crashed = ctx.nocrash(out, "C05:crash")
+    for r in out:
+        ctx.evaluations += 1
+        ctx.nontrivial.add("pacseq:" + vlib.digest([r["table"], r["reqs"]]))
+        if not r["ok"]:
+            rq = r["reqs"][r["at"]]
+            ctx.violation("C05:pac-history:%s:%s" % (rq["kind"], rq["path"]), r)
+        else:
+            ctx.traces_ok += 1
+    ctx.sample({"pac_history": recs[len(recs) // 2]})
     ctx.exhaustive = not q
 
 
